@@ -297,7 +297,29 @@ fn const_j<'tcx>(tcx: TyCtxt<'tcx>, owner: DefId, c: &Const<'tcx>) -> J {
             _ => {}
         }
     }
-    J::Arr(vec![J::s("k"), J::s("o"), J::s(with_no_trimmed_paths!(format!("{}", c))), tyi])
+    let shown = with_no_trimmed_paths!(format!("{}", c));
+    // `str`-typed pattern constants (match on string literals) print as a quoted literal
+    if shown.len() >= 2 && shown.starts_with('"') && shown.ends_with('"') {
+        let inner = &shown[1..shown.len() - 1];
+        let mut out = String::new();
+        let mut it = inner.chars();
+        while let Some(ch) = it.next() {
+            if ch == '\\' {
+                match it.next() {
+                    Some('n') => out.push('\n'),
+                    Some('t') => out.push('\t'),
+                    Some('r') => out.push('\r'),
+                    Some('0') => out.push('\0'),
+                    Some(other) => out.push(other),
+                    None => {}
+                }
+            } else {
+                out.push(ch);
+            }
+        }
+        return J::Arr(vec![J::s("k"), J::s("str"), J::Str(out), tyi]);
+    }
+    J::Arr(vec![J::s("k"), J::s("o"), J::Str(shown), tyi])
 }
 
 fn scalar_int_j<'tcx>(si: ty::ScalarInt, ty: Ty<'tcx>, tyi: J) -> J {
@@ -321,7 +343,23 @@ fn operand_j<'tcx>(tcx: TyCtxt<'tcx>, body: &Body<'tcx>, owner: DefId, op: &Oper
     match op {
         Operand::Copy(p) => J::Arr(vec![J::s("c"), place_j(tcx, body, p)]),
         Operand::Move(p) => J::Arr(vec![J::s("m"), place_j(tcx, body, p)]),
-        Operand::Constant(c) => const_j(tcx, owner, &c.const_),
+        Operand::Constant(c) => {
+            // reference to a static item (mutable statics and thread locals are cross-call state channels)
+            if let Some(rustc_middle::mir::interpret::Scalar::Ptr(ptr, _)) = c.const_.try_to_scalar() {
+                if let rustc_middle::mir::interpret::GlobalAlloc::Static(sdid) =
+                    tcx.global_alloc(ptr.provenance.alloc_id())
+                {
+                    return J::Arr(vec![
+                        J::s("k"),
+                        J::s("static"),
+                        J::s(path_of(tcx, sdid)),
+                        J::Int(ty_ix(tcx, c.const_.ty()) as i128),
+                        J::Bool(tcx.is_mutable_static(sdid)),
+                    ]);
+                }
+            }
+            const_j(tcx, owner, &c.const_)
+        }
         #[allow(unreachable_patterns)]
         _ => J::Arr(vec![J::s("k"), J::s("o"), J::s("?"), J::Int(0)]),
     }
